@@ -143,6 +143,17 @@ def monitor(case, log, ctx):
                         ctx.failure("callback-fired-twice", "callback %d of %s (retry=%d, %d bytes) fired %d times: %s" %
                                     (cid, e, snd["retry"], snd["len"], len(fired[(e, cid)]), fired[(e, cid)]), {"case": case, "at": at})
                         return
+    # sized sends over a perfect link (cases s*): every callback has fired exactly once by the end, and it said True
+    if case[0].split()[1].startswith("s") and not disc:
+        for (e, cid), snd in sends.items():
+            f = fired.get((e, cid), [])
+            if len(f) != 1 or not f[0][1]:
+                ctx.failure("callback-never-fired" if not f else "callback-wrong-on-perfect-link",
+                            "send %d of %s (%d bytes, retry=%d) over a loss-free link: callback fired %s by the end of the run (%d steps)" %
+                            (cid, e, snd["len"], snd["retry"], f or "never", sum(1 for l in case if l.startswith("build a"))),
+                            {"case": case, "at": len(case) - 2})
+                return
+            ctx.count("sized:callback-once-true")
     # after a healed tail with nothing pending every callback of an unretried or guaranteed send has fired exactly once
     if not disc and case[-2].startswith("dump") and case[0].split()[1].startswith("h"):
         final = {}
@@ -181,6 +192,16 @@ def run(ctx):
     for j, n_other in enumerate(ctx.scale([250, 257, 300], [40, 200, 255, 256, 257, 258, 300, 400, 520])):
         for fault in ("lost", "reorder"):
             cases.append(_c05.gen_overtaken_case(real, rng, "o%d%s" % (j, fault[0]), rng.choice([1500, 512]), n_other, fault))
+    # every size around the fragmentation boundaries, each retry mode, over a perfect link: the callback fires exactly once, with True
+    # (a message that can never be packed leaves its callback waiting for ever - nothing is "pending" in the sense of the tail rule above)
+    for mtu in ctx.scale([1500, 512], [1500, 512, 1098, 1093, 576]):
+        mp = mtu - 66
+        mf = mp - 6 if mp < 1030 else 1024
+        band = [k * mf + t for k in (1, 2, 3) for t in range(mp - 9, mp + 2)] + [mp - 1, mp, mp + 1, mf, mf + 1, 2 * mf, 2 * mf + 1]
+        rng.shuffle(band)
+        for j in range(0, len(band), 4):
+            cases.append(_c05.gen_size_case(real, rng, "s%d_%d" % (mtu, j), mtu, band[j:j + 4], lambda *a: False, lossy=0,
+                                            retry=[0, -1, 0, 1][(j // 4) % 4]))
     real2 = connlib.Real()
 
     def nontrivial(case, outs):
